@@ -322,6 +322,8 @@ def dot(a, b):
         raise TypeError(f"Cannot perform dot product on types {type(a)}, {type(b)}")
 
     if a.ndim == 1 and b.ndim == 1:
+        if a.shape != b.shape:
+            raise ValueError(f"shapes {a.shape} and {b.shape} not aligned: {a.shape[0]} (dim 0) != {b.shape[0]} (dim 0)")
         if isinstance(a, SparseArray):
             a = as_coo(a)
         if isinstance(b, SparseArray):
